@@ -665,6 +665,24 @@ class Rope:
             return And(*cs)
         raise Unsupported("rope comparison with different structure")
 
+    def py_getitem(self, it, idx):
+        """rope[n:] / rope[:n] / rope[i] with a concrete bound inside the leading fixed-length part
+        (a frame = packed header + payload of symbolic length)."""
+        head = self.parts[0]
+        if isinstance(head, BytesVal):
+            n = len(head.items)
+            if isinstance(idx, slice) and idx.step is None:
+                lo, hi = idx.start, idx.stop
+                if hi is None and isinstance(lo, int) and 0 <= lo <= n:
+                    return Rope.concat(it, BytesVal(head.items[lo:], head.mutable), Rope(self.parts[1:]) if len(self.parts) > 2 else self.parts[1])
+                if lo in (None, 0) and isinstance(hi, int) and 0 <= hi <= n:
+                    return BytesVal(head.items[:hi], head.mutable)
+                if isinstance(lo, int) and isinstance(hi, int) and 0 <= lo <= hi <= n:
+                    return BytesVal(head.items[lo:hi], head.mutable)
+            if isinstance(idx, int) and not isinstance(idx, bool) and 0 <= idx < n:
+                return head.items[idx]
+        raise Unsupported("subscript of a concatenation outside its leading fixed-length part")
+
     def __repr__(self):
         return "Rope(" + " + ".join(map(repr, self.parts)) + ")"
 
